@@ -68,8 +68,17 @@ func xUnion(u *sqlparser.Union) (Node, error) {
 			with = append(with, Node{"name": c.ID.String(), "q": cq})
 		}
 	}
-	if len(u.OrderBy) > 0 {
-		return nil, unsupported("ORDER BY on a UNION")
+	order := []any{}
+	for _, o := range u.OrderBy {
+		c, ok := o.Expr.(*sqlparser.ColName)
+		if !ok {
+			return nil, unsupported("ORDER BY %T", o.Expr)
+		}
+		p, err := xColPath(c)
+		if err != nil {
+			return nil, err
+		}
+		order = append(order, Node{"key": toAny(p), "asc": o.Direction == sqlparser.AscOrder})
 	}
 	l, err := xStatement(u.Left)
 	if err != nil {
@@ -87,7 +96,11 @@ func xUnion(u *sqlparser.Union) (Node, error) {
 		setWith(l, with)
 		setWith(r, with)
 	}
-	return Node{"k": "union", "l": l, "r": r, "all": !u.Distinct, "limit": lim, "offset": off}, nil
+	out := Node{"k": "union", "l": l, "r": r, "all": !u.Distinct, "limit": lim, "offset": off}
+	if len(order) > 0 {
+		out["order"] = order
+	}
+	return out, nil
 }
 
 func setWith(q Node, with []any) {
@@ -109,6 +122,12 @@ func xLimit(l *sqlparser.Limit) (int, int, error) {
 			return 0, unsupported("LIMIT / OFFSET that is not an integer literal")
 		}
 		n := new(big.Int)
+		if _, ok := n.SetString(x.Val, 10); ok && !n.IsInt64() {
+			return 2000000001, nil // beyond int64: the specification's Huge + 1
+		}
+		if n.IsInt64() && n.Int64() == 9223372036854775807 {
+			return 2000000000, nil // the specification's Huge
+		}
 		if _, ok := n.SetString(x.Val, 10); !ok || !n.IsInt64() || n.Int64() > 1000000000 {
 			return 0, unsupported("LIMIT / OFFSET %s", x.Val)
 		}
@@ -211,10 +230,15 @@ func xSelect(s *sqlparser.Select) (Node, error) {
 			if err != nil {
 				return nil, err
 			}
-			if len(p) != 1 {
-				return nil, unsupported("GROUP BY on a path")
+			switch {
+			case len(p) == 1 && q["gqual"] == nil:
+				group = append(group, p[0])
+			case len(p) == 2 && p[0] != "<-" && (len(group) == 0 || q["gqual"] == p[0]):
+				q["gqual"] = p[0]
+				group = append(group, p[1])
+			default:
+				return nil, unsupported("GROUP BY on a path deeper than alias.column, or a mix of qualified and plain columns")
 			}
-			group = append(group, p[0])
 		}
 	}
 	q["group"] = group
